@@ -9,6 +9,9 @@ Lemma sites_now :
   names_checked_for_period = true /\ import_cycle_detected = true /\ dummy_segment_restored = true.
 Proof. repeat split; reflexivity. Qed.
 
+Lemma segment_limit_now : segment_address_limit = 65535.
+Proof. reflexivity. Qed.
+
 Lemma pc_sites_now :
   pc_values_checked = true /\ pc_limit = 65536 /\ relocated_pc_checked = true /\ pc_add_checked = true /\ branch_sub_checked = true.
 Proof. repeat split; reflexivity. Qed.
@@ -265,16 +268,38 @@ Proof. intros H. unfold usize_as_i64, wrap64, two64. rewrite Z.mod_small by lia.
 
 (* what the range checks accept *)
 Lemma address_check_spec v :
-  (0 <= v <= 65536 -> address_check v = SOk v) /\ (~ 0 <= v <= 65536 -> address_check v = SDiag diag_pc_out_of_range).
+  (0 <= v <= 65535 -> address_check v = SOk v) /\ (~ 0 <= v <= 65535 -> address_check v = SDiag diag_pc_out_of_range).
 Proof.
-  destruct pc_sites_now as (C & L & _). unfold address_check. rewrite C, L. cbn [andb]. split; intros H.
+  destruct pc_sites_now as (C & _). unfold address_check. rewrite C, segment_limit_now. cbn [andb]. split; intros H.
+  - assert (E : (0 <=? v) && (v <=? 65535) = true) by lia. rewrite E. cbn [negb].
+    unfold pc_from_i64, as_usize, two64. rewrite Z.mod_small by lia. reflexivity.
+  - assert (E : (0 <=? v) && (v <=? 65535) = false) by lia. rewrite E. reflexivity.
+Qed.
+Lemma pc_value_check_spec v :
+  (0 <= v <= 65536 -> pc_value_check v = SOk v) /\ (~ 0 <= v <= 65536 -> pc_value_check v = SDiag diag_pc_out_of_range).
+Proof.
+  destruct pc_sites_now as (C & L & _). unfold pc_value_check. rewrite C, L. cbn [andb]. split; intros H.
   - assert (E : (0 <=? v) && (v <=? 65536) = true) by lia. rewrite E. cbn [negb].
     unfold pc_from_i64, as_usize, two64. rewrite Z.mod_small by lia. reflexivity.
   - assert (E : (0 <=? v) && (v <=? 65536) = false) by lia. rewrite E. reflexivity.
 Qed.
 
 Lemma address_check_total v : address_check v <> SPanic.
-Proof. unfold address_check. destruct (pc_values_checked && negb ((0 <=? v) && (v <=? pc_limit))); discriminate. Qed.
+Proof. unfold address_check. destruct (pc_values_checked && negb ((0 <=? v) && (v <=? segment_address_limit))); discriminate. Qed.
+
+(* the start address of an accepted segment always has a .prg header; with $10000 accepted (before 4adc08f) it did not *)
+Lemma prg_header_of_accepted_start v s : address_check v = SOk s -> prg_header s <> SPanic.
+Proof.
+  intros H. destruct (address_check_spec v) as [A B]. destruct (Z_le_gt_dec 0 v) as [P|P]; [destruct (Z_le_gt_dec v 65535) as [Q|Q]|].
+  - rewrite A in H by lia. injection H as <-. unfold prg_header. assert (E : (v <? 65536) = true) by lia. rewrite E. discriminate.
+  - rewrite B in H by lia. discriminate.
+  - rewrite B in H by lia. discriminate.
+Qed.
+Lemma prg_header_panics_iff s : prg_header s = SPanic <-> 65536 <= s.
+Proof. unfold prg_header. destruct (s <? 65536) eqn:E; split; try discriminate; try lia; reflexivity. Qed.
+
+Lemma spanless_clash_is_diagnostic : spanless_clash = SDiag diag_redefine.
+Proof. reflexivity. Qed.
 
 (* `* = v`: a diagnostic exactly when v is outside 0..$10000 or (with a current segment) the relocated pc is negative;
    otherwise the pc that is set satisfies the invariant *)
@@ -285,7 +310,7 @@ Lemma set_pc_site_spec v initial target :
   (~ (0 <= v <= 65536 /\ 0 <= v + (target - initial)) ->
      set_pc_site v (Some (seg_offset initial target)) = SDiag diag_pc_out_of_range).
 Proof.
-  intros Hi Ht. destruct pc_sites_now as (C & L & R & _). destruct (address_check_spec v) as [A1 A2].
+  intros Hi Ht. destruct pc_sites_now as (C & L & R & _). destruct (pc_value_check_spec v) as [A1 A2].
   unfold set_pc_site, seg_offset. rewrite !small_usize_as_i64 by lia. rewrite R. cbn [andb]. split.
   - intros [Hv Hr]. rewrite A1 by lia. assert (E : (v + (target - initial) <? 0) = false) by lia. rewrite E.
     split; [reflexivity|]. unfold pc_ok. rewrite L. lia.
@@ -390,9 +415,9 @@ Qed.
 Lemma stmt_segment_total s t : stmt_segment_then_byte s t <> RPanic.
 Proof.
   unfold stmt_segment_then_byte. destruct (address_check_spec s) as [S1 S2]. destruct (address_check_spec t) as [T1 T2].
-  destruct (Z_le_gt_dec 0 s) as [A|A]; [destruct (Z_le_gt_dec s 65536) as [B|B]|]; try (rewrite S2 by lia; discriminate).
+  destruct (Z_le_gt_dec 0 s) as [A|A]; [destruct (Z_le_gt_dec s 65535) as [B|B]|]; try (rewrite S2 by lia; discriminate).
   rewrite S1 by lia.
-  destruct (Z_le_gt_dec 0 t) as [D|D]; [destruct (Z_le_gt_dec t 65536) as [F|F]|]; try (rewrite T2 by lia; discriminate).
+  destruct (Z_le_gt_dec 0 t) as [D|D]; [destruct (Z_le_gt_dec t 65535) as [F|F]|]; try (rewrite T2 by lia; discriminate).
   rewrite T1 by lia. apply emit_one_total. destruct pc_sites_now as (_ & L & _). unfold pc_ok. rewrite L. lia.
 Qed.
 
